@@ -81,7 +81,8 @@ type sim struct {
 	values   map[uint64][]uint64 // height -> values seen
 	commits  map[uint64]In       // height -> a ProcessSync input made from a correct validator's commit
 	retired  map[int]bool        // machines that ran far ahead of the target height
-	wal      [][]In              // per machine: the WAL the driver would hold (entries as replay inputs)
+	wal      [][]In              // per machine: the DURABLE part of the WAL the driver would hold (entries as replay inputs)
+	walPend  [][]In              // … entries handed to SetWALEntry since the last Flush: lost by a crash
 	vcalls   []uint64            // per machine: Application.Value() calls so far
 	vcallsH  []uint64            // … at the start of the current height
 	replay   bool                // inside a WAL replay (no WAL writes, no ProcessStart after a commit)
@@ -204,10 +205,15 @@ func (s *sim) do(m int, in In) {
 	s.sc.Events = append(s.sc.Events, Event{M: m, In: in})
 	commit := false
 	for _, a := range acts {
+		if !s.replay && a.Flush {
+			// driver.execute: `if !isReplaying && action.RequiresWALFlush() { db.Flush() }`
+			s.wal[m] = append(s.wal[m], s.walPend[m]...)
+			s.walPend[m] = nil
+		}
 		switch a.Kind {
 		case "W":
 			if !s.replay && a.Wal != nil {
-				s.wal[m] = append(s.wal[m], *a.Wal)
+				s.walPend[m] = append(s.walPend[m], *a.Wal)
 			}
 		case "BP":
 			if a.VR == -1 {
@@ -223,7 +229,9 @@ func (s *sim) do(m int, in In) {
 			s.timeouts[m] = append(s.timeouts[m], In{Kind: "to", Step: a.Step, H: a.H, R: a.R})
 		case "C":
 			commit = true
-			// driver.commit: DeleteWALEntries(commit.Height)
+			// driver.commit: DeleteWALEntries(commit.Height), then Flush
+			s.wal[m] = append(s.wal[m], s.walPend[m]...)
+			s.walPend[m] = nil
 			keep := s.wal[m][:0:0]
 			for _, e := range s.wal[m] {
 				if e.H > a.H {
@@ -413,6 +421,10 @@ func (s *sim) restart(m int) {
 	s.sc.Events = append(s.sc.Events, Event{M: m, In: in})
 	s.vcalls[m] = s.vcallsH[m]
 	s.timeouts[m] = nil
+	if len(s.walPend[m]) > 0 {
+		s.w.hit("restart-loses-unflushed-wal-entries")
+	}
+	s.walPend[m] = nil // what was not flushed is gone
 	entries := append([]In(nil), s.wal[m]...)
 	sort.SliceStable(entries, func(i, j int) bool { return entries[i].H < entries[j].H })
 	s.replay = true
@@ -445,6 +457,7 @@ func (s *sim) run() {
 	s.w = NewWorld(s.sc)
 	s.timeouts = make([][]In, len(s.sc.Nodes))
 	s.wal = make([][]In, len(s.sc.Nodes))
+	s.walPend = make([][]In, len(s.sc.Nodes))
 	s.vcalls = make([]uint64, len(s.sc.Nodes))
 	s.vcallsH = make([]uint64, len(s.sc.Nodes))
 	if s.r.Chance(1, 3) {
